@@ -58,6 +58,19 @@ def lcg (size : Nat) (seed : UInt32) : Bytes :=
     | n + 1 => let x := x * 1103515245 + 12345; go n x (acc.push (x >>> 16).toUInt8)
   (go size seed (Array.mkEmpty size)).toList
 
+def allStr (b : Bytes) : String :=
+  s!"md5={showE (md5Str b)} fnv32={showE ((qhashfnv1_32 b b.length).map hex32)} " ++
+  s!"fnv64={showE ((qhashfnv1_64 b b.length).map hex64)} " ++
+  s!"m32={showE ((qhashmurmur3_32 b b.length).map hex32)} m128={showE (m128Str b)}"
+
+/-- the input of thread `t` of `allmt`: the bytes rotated left by `t` -/
+def rotl (b : Bytes) (t : Nat) : Bytes :=
+  if b.isEmpty then b else b.drop (t % b.length) ++ b.take (t % b.length)
+
+def pairs : List String → List (Nat × Nat)
+  | a :: b :: rest => (a.toNat!, b.toNat!) :: pairs rest
+  | _ => []
+
 def allArgs (ws : List String) : Option (List Bytes) := ws.mapM Hex.decode
 
 def step (file : Option Bytes) (ws : List String) : Option Bytes × String :=
@@ -76,6 +89,22 @@ def step (file : Option Bytes) (ws : List String) : Option Bytes × String :=
         s!"fnv64={showE ((qhashfnv1_64 b b.length).map hex64)} " ++
         s!"m32={showE ((qhashmurmur3_32 b b.length).map hex32)} m128={showE (m128Str b)}"
       | .error e => e)
+  /- the functions are pure in the model: called from T threads at once, thread t returns what a
+     sequential call on its own input returns -/
+  | ["allmt", t, _, x] => (file, match arg x with
+      | .ok b => "ok" ++ String.join ((List.range t.toNat!).map fun i => " | " ++ allStr (rotl b i))
+      | .error e => e)
+  | "md5filemt" :: t :: _ :: rs => (file, match file with
+      | none => "no-file"
+      | some contents =>
+        let ps := pairs rs
+        "ok" ++ String.join ((List.range t.toNat!).map fun i =>
+          match ps[i % ps.length]? with
+          | some (off, nb) => " | " ++ (match qhashmd5File ctxEE contents off nb [] with
+              | .ok (some d) => hx d
+              | .ok none => "false"
+              | .error f => faultStr f)
+          | none => " | bad-op"))
   | "md5chunks" :: cs => (file, match allArgs cs with
       | some bs => chunks bs
       | none => "bad-hex")
